@@ -312,8 +312,15 @@ impl Holder {
 }
 
 /// Replays a move/drop history; values must equal the unmoved reference sequence.
-fn gradual_run(map: &Beatmap, mode: u8, reference: &[DifficultyAttributes], hist: &[GOp]) -> Result<u64, String> {
-    let mk = || api::gradual(Difficulty::new(), map, mode).expect("native");
+fn limited(limit: Option<u32>) -> Difficulty {
+    match limit {
+        Some(k) => Difficulty::new().passed_objects(k),
+        None => Difficulty::new(),
+    }
+}
+
+fn gradual_run(map: &Beatmap, mode: u8, limit: Option<u32>, reference: &[DifficultyAttributes], hist: &[GOp]) -> Result<u64, String> {
+    let mk = || api::gradual(limited(limit), map, mode).expect("native");
     let mut a = Holder::Plain(mk());
     // a second instance, advanced by one, for swaps
     let mut b = Holder::Plain(mk());
@@ -539,7 +546,7 @@ fn miri_body(thorough: bool, part: &str) {
                 continue;
             }
             println!("MIRI-STEP gradual mode={mode} history={h:?}");
-            match gradual_run(&map, mode, &reference, &h) {
+            match gradual_run(&map, mode, None, &reference, &h) {
                 Ok(c) => {
                     states += 1;
                     transitions += h.len() as u64;
@@ -548,6 +555,28 @@ fn miri_body(thorough: bool, part: &str) {
                 Err(m) => {
                     println!("MIRI-FAIL gradual mode={mode} history={h:?} {m}");
                     std::process::exit(1);
+                }
+            }
+        }
+    }
+    // (m2b) a Difficulty that itself carries passed_objects(k): every history of <= 2 (thorough 3) next / nth(1) calls
+    for &mode in &modes {
+        let map = small_map(mode);
+        for limit in [Some(0u32), Some(1)] {
+            let hs: Vec<Vec<GOp>> = gradual_histories(if thorough { 3 } else { 2 }).into_iter().filter(|h| h.iter().all(|o| matches!(o, GOp::Next | GOp::Nth1))).collect();
+            for h in hs {
+                println!("MIRI-STEP gradual mode={mode} passed_objects={limit:?} history={h:?}");
+                let reference: Vec<DifficultyAttributes> = api::gradual(limited(limit), &map, mode).expect("native").collect();
+                match gradual_run(&map, mode, limit, &reference, &h) {
+                    Ok(c) => {
+                        states += 1;
+                        transitions += h.len() as u64;
+                        checked += c;
+                    }
+                    Err(m) => {
+                        println!("MIRI-FAIL gradual mode={mode} passed_objects={limit:?} history={h:?} {m}");
+                        std::process::exit(1);
+                    }
                 }
             }
         }
@@ -675,20 +704,26 @@ fn main() {
         }
     });
 
-    // (3) gradual lifetimes + decoder natively too (values / survival oracle; Miri adds the UB monitor)
+    // (3) gradual lifetimes + decoder natively too (values / survival oracle; Miri adds the UB monitor). In workers built with
+    // debug assertions: an out-of-bounds `get_unchecked` or a misaligned / dangling read aborts there and is pinned to its case
+    ctx.set_worker_exe(Some(root.join("target/vdebug/c11")));
     for mode in 0..4u8 {
-        let map = small_map(mode);
-        let reference: Vec<DifficultyAttributes> = api::gradual(Difficulty::new(), &map, mode).expect("native").collect();
-        let hs = gradual_histories(4);
-        ctx.universe(&format!("gradual-lifetimes/native/mode{mode}"), hs.len() as u64, |idx, l| {
-            l.states(1);
-            l.nontrivial();
-            match gradual_run(&map, mode, &reference, &hs[idx as usize]) {
-                Ok(c) => l.checked(c),
-                Err(m) => l.violation("gradual_moved", || format!("mode={mode} history={:?}\n{m}", hs[idx as usize])),
-            }
-        });
+        for limit in [None, Some(0u32), Some(1)] {
+            let map = small_map(mode);
+            let hs = gradual_histories(if limit.is_none() { 4 } else { 3 });
+            ctx.universe_isolated(&format!("gradual-lifetimes/vdebug/mode{mode}/passed_objects={limit:?}"), hs.len() as u64, 20.0, 2048, |idx, l| {
+                l.states(1);
+                l.nontrivial();
+                // (the reference is computed inside the isolated case: with a defect it may itself be what crashes)
+                let reference: Vec<DifficultyAttributes> = api::gradual(limited(limit), &map, mode).expect("native").collect();
+                match gradual_run(&map, mode, limit, &reference, &hs[idx as usize]) {
+                    Ok(c) => l.checked(c),
+                    Err(m) => l.violation("gradual_moved", || format!("mode={mode} passed_objects={limit:?} history={:?}\n{m}", hs[idx as usize])),
+                }
+            });
+        }
     }
+    ctx.set_worker_exe(None);
     let texts = path_texts();
     ctx.universe("decoder-paths/native", texts.len() as u64, |idx, l| {
         l.states(1);
